@@ -136,6 +136,26 @@ def callClass {κ α : Type} (f : Option κ) (k : κ → Except Err α) : Except
   | none => .error .type
   | some c => k c
 
+/-- `d[k]` on a dict display: KeyError -/
+def tableGetE {κ ν : Type} [DecidableEq κ] (t : List (κ × ν)) (k : κ) : Except Err ν :=
+  match tableGet t k with
+  | none => .error .key
+  | some v => .ok v
+
+/-- `d[k] = v` / `d.update({k: v})`: an existing key keeps its place and gets the value, a new key goes to the end -/
+def tableSet {κ ν : Type} [DecidableEq κ] (t : List (κ × ν)) (k : κ) (v : ν) : List (κ × ν) :=
+  if (t.any fun e => decide (e.1 = k)) then t.map (fun e => if e.1 = k then (k, v) else e) else t ++ [(k, v)]
+
+/-- `p in s` for `str` (code points): `p` occurs as a contiguous part of `s` -/
+def strPrefix : List Nat → List Nat → Bool
+  | [], _ => true
+  | _ :: _, [] => false
+  | a :: as, b :: bs => a == b && strPrefix as bs
+
+def strIn (p : List Nat) : List Nat → Bool
+  | [] => p.isEmpty
+  | s@(_ :: t) => strPrefix p s || strIn p t
+
 /-! ### loops -/
 
 /-- `range(a, b)` -/
@@ -153,6 +173,7 @@ def forE {σ ι : Type} (l : List ι) (st : σ) (body : σ → ι → Except Err
 /-- one round of a loop that can be left by `return`: go on with the new state, or leave with the result -/
 inductive Step (σ ρ : Type)
   | next (s : σ)
+  | brk (s : σ)
   | ret (r : ρ)
 
 /-- `for x in l: …` whose body may raise or `return` -/
@@ -163,6 +184,7 @@ def forS {σ ι ρ : Type} (l : List ι) (st : σ) (body : σ → ι → Except 
     match body st i with
     | .error e => .error e
     | .ok (.ret r) => .ok (.ret r)
+    | .ok (.brk s) => .ok (.next s)
     | .ok (.next s) => forS rest s body
 
 /-- `while cond: …` with at most `fuel` rounds; needing more is `.error .fuel` -/
@@ -175,6 +197,7 @@ def whileS {σ ρ : Type} (fuel : Nat) (st : σ) (cond : σ → Bool) (body : σ
       match body st with
       | .error e => .error e
       | .ok (.ret r) => .ok (.ret r)
+      | .ok (.brk s) => .ok (.next s)
       | .ok (.next s) => whileS n s cond body
     else .ok (.next st)
 
@@ -183,6 +206,7 @@ def whileS {σ ρ : Type} (fuel : Nat) (st : σ) (cond : σ → Bool) (body : σ
   match x with
   | .error e => onErr e
   | .ok (.ret r) => onRet r
+  | .ok (.brk s) => onNext s
   | .ok (.next s) => onNext s
 
 @[simp] theorem loopS_next {σ ρ β : Type} (s : σ) (f : Err → β) (g : ρ → β) (h : σ → β) :
